@@ -5,6 +5,7 @@ CONSTANTS
   MaxV = 700
   Tset = 2
   WithIntr = FALSE
+  IntrWin = 300
 INIT VInit
 NEXT VNextA
 INVARIANTS Refines NoRunWithErrors VTypeOK VVarsTyped Linked FramesAtLineStart SliceInvariant
